@@ -213,6 +213,22 @@ func runC20(c *Ctx) {
 		}
 		r.Check(o.OK, "H5", o.Key, o.Site, o.Detail, o.Detail)
 	}
+	// H7 (= E4): the release channel is closed by the scheduler's defers; a Release call is ordered
+	// before that close only by the scheduler having received it - the deferred wait leaves only
+	// when every counter is zero. Otherwise close(feedback) is concurrent with a send.
+	r.Doc("H7", "(= C07 E4) the scheduler closes the release channel only after it has received every release (the wait-for-zero leaves only when all counters are zero)", 2)
+	for _, p := range []*Prog{c.V1, c.V2} {
+		sr, err := resolveSchedRoles(p)
+		if err != nil {
+			r.Fail("H7", p.Name+":priority", "-", err.Error())
+			continue
+		}
+		sub7 := &Ctx{V1: c.V1, V2: c.V2, Tier: c.Tier, R: NewReport("tmp", c.Tier)}
+		c07waitZero(sub7, sr)
+		for _, o := range sub7.R.Obls {
+			r.Check(o.OK, "H7", o.Key, o.Site, o.Detail, o.Detail)
+		}
+	}
 }
 
 func c20prog(c *Ctx, p *Prog) {
